@@ -46,7 +46,9 @@ RULE = ("(A) class bodies generated as source and exec'd in a fresh module: 0-5 
         "closure-free), functools.cached_property (0-2, with/without return annotation), custom "
         "descriptor, functools.wraps wrapper, lambda, plain attribute, nested class, user __getattr__, "
         "own __attrs_init_subclass__, an inherited field name re-bound as a plain attribute or method; classmethod / "
-        "staticmethod / property / cached_property members also as instances of strict subclasses} x closure use {none, __class__, zero-argument super()} (biased "
+        "staticmethod / property / cached_property members also as instances of strict subclasses; members of a class "
+        "defined inside a function also mention free variables of that function (cells empty at decoration time, sorting "
+        "before / after __class__, or bound)} x closure use {none, __class__, zero-argument super()} (biased "
         "towards bodies with exactly one user of the shared __class__ cell) x metaclass {type, custom, "
         "ABCMeta} x nesting {module level, inside a function, inside a class} x docstring x api "
         "{attr.s(slots=True), attrs.define} x weakref_slot x cache_hash x frozen x 0-3 own fields "
